@@ -89,6 +89,56 @@ def _collect_report(log_prefix, pid):
   return txt
 
 
+def _spawn(cmd, env, stem, log_prefix, timeout):
+  """Run a worker with stdout/stderr in files (no pipes: sanitizer symbolizer children may outlive the worker and keep
+  a pipe open). A worker that wrote a sanitizer report but does not exit is killed after a grace period."""
+  import signal
+  errf = stem + '.stderr'
+  with open(errf, 'w') as ef:
+    p = subprocess.Popen(cmd, cwd=runner.VERIF, env=env, stdout=ef, stderr=ef, stdin=subprocess.DEVNULL,
+                         start_new_session=True)
+    t0 = time.time()
+    rc = None
+    while True:
+      try:
+        rc = p.wait(timeout=0.5)
+        break
+      except subprocess.TimeoutExpired:
+        pass
+      now = time.time()
+      stuck = False
+      if log_prefix:
+        d, base = os.path.dirname(log_prefix), os.path.basename(log_prefix)
+        for f in os.listdir(d):
+          if f.startswith(base + '.'):
+            try:
+              st = os.stat(os.path.join(d, f))
+            except OSError:
+              continue
+            if st.st_size > 0 and now - st.st_mtime > 20:
+              stuck = True
+      if stuck or now - t0 > timeout:
+        try:
+          os.killpg(p.pid, signal.SIGKILL)
+        except OSError:
+          pass
+        p.wait()
+        rc = -998 if stuck else -999
+        break
+    try:
+      os.killpg(p.pid, signal.SIGKILL)      # stray symbolizer children
+    except OSError:
+      pass
+  try:
+    err = open(errf, errors='replace').read()[-6000:]
+    os.unlink(errf)
+  except OSError:
+    err = ''
+  if rc == -999:
+    err = 'TIMEOUT ' + err
+  return rc, err
+
+
 def _run_chunk(module, idxs, jobs, results, asan, tag, chunk_id, timeout, variant_env):
   todo = list(idxs)
   tmpd = os.path.join(WORK, 'proc', tag)
@@ -105,12 +155,7 @@ def _run_chunk(module, idxs, jobs, results, asan, tag, chunk_id, timeout, varian
     log_prefix = stem + '.asan'
     env = asan_env(log_prefix) if asan else plain_env()
     env.update(variant_env or {})
-    try:
-      p = subprocess.run([sys.executable, '-m', module, jf, of], cwd=runner.VERIF, env=env, capture_output=True,
-                         text=True, errors='replace', timeout=timeout)
-      rc, err = p.returncode, p.stderr
-    except subprocess.TimeoutExpired as e:
-      rc, err = -999, 'TIMEOUT ' + str(e.stderr)[-2000:] if e.stderr else 'TIMEOUT'
+    rc, err = _spawn([sys.executable, '-m', module, jf, of], env, stem, log_prefix if asan else None, timeout)
     started = None
     done = set()
     if os.path.exists(of):
